@@ -183,7 +183,7 @@ func c02Case(c *Ctx) *Result {
 		plans[i] = p
 	}
 	env, err := NewEnv(EnvCfg{UDP: true, MTUC: mtuC, MTUS: mtuS, PatC: patC, PatS: patS, Multiplex: 3,
-		Users: []UserSpec{{"alice", "alice-secret"}, {"bob", "bob-secret"}}})
+		Users: usersABL})
 	if err != nil {
 		return &Result{Verdict: Inconclusive, Detail: "env: " + err.Error()}
 	}
@@ -235,7 +235,7 @@ func c02Case(c *Ctx) *Result {
 	}
 	c.Out.Start("C02", fmt.Sprintf("C02-udp/%d/%d", c.Seed, c.Idx), c.Seed, params)
 	res := &Result{Params: params}
-	ui := r.Intn(2)
+	ui := r.Intn(len(env.Cfg.Users))
 	cm, err := env.NewClient(ui, "")
 	if err != nil {
 		res.Verdict, res.Detail = Inconclusive, "client: "+err.Error()
